@@ -12,7 +12,9 @@ Line-protocol operations of the scope helpers (C17).  Driver only.
 The `spec.scope.*` lines carry the declarative oracle of C17: on the Go side the helper's answer
 is compared with brute-force `CaveatSet.Validate` over the id universe and the observable is
 `sound` or `unsound:<clause>:<id>`; the answer the property (and, for the model, the theorems
-of Props/C17.lean) makes mandatory is `sound`.
+of Props/C17.lean) makes mandatory is `sound`.  `spec.scope.pure` is the same kind of line for
+"the helpers are functions of the set": asked again they answer the same and the set is unchanged
+(the model's helpers are pure functions, so `sound` holds of them by construction).
 -/
 import Driver.CavIO
 import Macaroon.Flyio.Scopes
